@@ -3,7 +3,7 @@ import Storrent.Drive.MetaLine
 import Storrent.Model.MetaSha1
 /- driver for the C12 stream (one torrent at a time):
    `new <hash> <authentic info> E | B <psLen> <name> <name8> <pl> <|pieces|> <length> <files>`
-   `vote <size>` `resize <size>` `req <guess> <picks>` `got <index> <size> <dataspec>`
+   `vote <size>` `resize <size>` `req <guess> <picks>` `got <index> <size> <dataspec>` `join`
    every answer: `<tag> [guess-ok= picks-ok=] c= n= f= b= r= v=` (state digest).
    SHA-1 is computed here; MetadataComplete of the authentic dictionary is C13's model
    applied to the BInfo the real decoder produced for it. -/
@@ -151,6 +151,9 @@ def step (d : DState) (ws : List String) : DState × String :=
       let d' : DState := { s := init h, ti := info, mcTrue := m }
       (d', "new " ++ digest d'.s)
     | _, _, _ => (d, "bad-op")
+  | ["join"] =>
+    -- a peer joins (TorAddPeer), is served, and leaves: the metadata state is untouched
+    (d, "join " ++ digest d.s)
   | ["vote", sz] =>
     match u32? sz with
     | some sz => out d (metadataVote d.s sz)
